@@ -663,6 +663,56 @@ def fam_moves(rnd, i, depth=30):
     return steps
 
 
+def fam_parmoves(rnd, i):
+    """Moves performed by several threads at once, each inside its own watched directory, so that the two
+    halves of different moves interleave in the kernel queue (rename correlation must still pair them)."""
+    w = "w1"
+    nt = rnd.randint(2, 6)
+    steps = []
+    dirs = [("p%d" % k,) for k in range(nt)]
+    for d in dirs:
+        steps.append(fs("mkdir", d))
+        steps.append(fs("create", d + ("f0",)))
+    steps.append(new(w, rnd.choice([0, 0, 64])))
+    for d in dirs:
+        steps.append(call(w, "add", d, "rel"))
+    rounds = rnd.randint(3, 12)
+    threads = []
+    for d in dirs:
+        threads.append([fs("rename", d + ("f%d" % r,), to=d + ("f%d" % (r + 1),)) for r in range(rounds)])
+    steps.append({"s": "par", "threads": threads})
+    steps += [fdrain(rnd, w), call(w, "watchlist"), obs(w)]
+    return steps
+
+
+def fam_multix(rnd, i):
+    """Watchers on different directories of one history: a move between a directory only A watches and one
+    only B watches, handled by A first while B is held back; identical operations separated by observations
+    (the kernel queue is seen empty in between, so nothing can be merged) with a buffered watcher."""
+    steps = [fs("mkdir", ("src",)), fs("mkdir", ("dst",)), fs("create", ("src", "f1")), fs("create", ("src", "f2")), fs("create", ("dst", "g"))]
+    a, b = "w1", "w2"
+    steps += [new(a, rnd.choice([0, 4])), call(a, "add", ("src",), "rel"), new(b, rnd.choice([0, 0, 16])), call(b, "add", ("dst",), "rel")]
+    if rnd.random() < 0.5:
+        steps.append(call(a, "add", ("dst",), "rel"))
+    # hold B back with an unreceived event
+    steps += [fs("chmod", ("dst", "g")), drain(a)]
+    for k in (1, 2):
+        steps += [fs("rename", ("src", "f%d" % k), to=("dst", "f%d" % k)), drain(a)]
+    steps += [drain(b), obs(a), obs(b)]
+    # identical operations, each fully read by the library before the next one (no kernel merge possible)
+    c = "w3"
+    cap = rnd.choice([4, 16, 64])
+    steps += [new(c, cap), call(c, "add", ("dst",), "rel")]
+    for _ in range(rnd.randint(2, 4)):
+        steps += [fs("chmod", ("dst", "g")), obs(c)]
+    for _ in range(rnd.randint(1, 3)):
+        steps += [fs("write", ("dst", "g")), obs(c)]
+    steps += [drain(c), drain(a), drain(b), obs(c)]
+    for w in (a, b, c):
+        steps += [call(w, "close"), drain(w), obs(w)]
+    return steps
+
+
 def fam_multi(rnd, i):
     """The same history observed by several watchers with different buffer sizes, while other
     watchers on the same directories are created, used and closed."""
@@ -932,6 +982,7 @@ FAMS = {
     "cycle": fam_cycle, "newclose": fam_newclose, "overflow": fam_overflow, "moves": fam_moves, "multi": fam_multi,
     "absorb": fam_absorb, "withops": fam_withops, "repoint": fam_repoint, "stall": fam_stall, "spell": fam_spell,
     "endwatch": fam_endwatch, "paced": fam_paced, "ovfstall": fam_ovfstall, "ovflate": fam_ovflate,
+    "parmoves": fam_parmoves, "multix": fam_multix,
 }
 
 
